@@ -144,15 +144,15 @@ ADDENDA = {
     'C04': ' Tie by TRANSLATION as well: harness/translate_pure.py regenerates Generated/GridGen.lean from Grid.setLayout / saveGridValues / freeGridSave / restoreGridValues (statements in source order, over a state that also records which layout self._layout is and what self._f views) on every run and Props/C04Gen.lean proves gen_step_eq / gen_run_eq (generated state machine = model on every reachable state, view invariant kept) and source_history_behaves_like_global_array.',
     'C01': ' Since the repair of F15 over-decomposed configurations (ranks owning empty blocks) are part of the correspondence.',
     'C20': ' Tie by TRANSLATION as well: harness/translate_pure.py regenerates Generated/ProcGridGen.lean (both functions of process_grid.py, every while loop a fuel-recursive function over the record of all locals, / in exact rationals) on every run and Props/C20Gen.lean proves gen_from_max_eq / gen_procGridFromMax_eq / gen_procGrid_eq (generated = model for all inputs with max_proc1, size >= 1 and every sufficient fuel) and gen_procgrid_spec (termination, validity, RuntimeError iff no factorisation, stated on the generated function).',
-    'C07': ' Tie by TRANSLATION for the binary search: harness/translate_pure.py regenerates Generated/FindSpanGen.lean from nu_find_span on every run and Props/C07Gen.lean proves gen_find_span_eq / gen_find_span_correct (the generated span search returns what the model returns; terminates and finds the containing cell on sorted knots); targets basisfuns / eval1d regenerate nu_basis_funs, nu_basis_funs_1st_der and nu_eval_spline_1d_scalar and Props/C07Gen2.lean proves gen_basis_funs_eq, gen_basis_funs_1st_der_eq, gen_eval_spline_1d_eq/_total (generated kernels = model for every knot vector, degree and point); target cueval regenerates the cubic-uniform kernels (cu_find_span with int() as truncation toward zero, cu_basis_funs, cu_basis_funs_1st_der, cu_eval_spline_1d_scalar) and Props/C07Gen3.lean proves gen_cu_*_eq and gen_cu_eval_eq_general_path (generated fast path = general-path model on the uniform knots, inside the domain); target evalvec regenerates the 1-D vector entry points and Props/C07Gen4.lean proves gen_nu_eval_vector_eq/_total and gen_cu_eval_vector_eq/_model (y[k] = the scalar evaluation at x[k], nothing beyond); target eval2d regenerates the 2-D scalar evaluators and Props/C07Gen5.lean proves gen_eval_spline_2d_eq/_model/_total and gen_cu_eval_spline_2d_eq / gen_cu_eval_2d_eq_general_path (tensor-product sum over the 2-D coefficient window, all four derivative combinations).',
+    'C07': ' Tie by TRANSLATION for the binary search: harness/translate_pure.py regenerates Generated/FindSpanGen.lean from nu_find_span on every run and Props/C07Gen.lean proves gen_find_span_eq / gen_find_span_correct (the generated span search returns what the model returns; terminates and finds the containing cell on sorted knots); targets basisfuns / eval1d regenerate nu_basis_funs, nu_basis_funs_1st_der and nu_eval_spline_1d_scalar and Props/C07Gen2.lean proves gen_basis_funs_eq, gen_basis_funs_1st_der_eq, gen_eval_spline_1d_eq/_total (generated kernels = model for every knot vector, degree and point); target cueval regenerates the cubic-uniform kernels (cu_find_span with int() as truncation toward zero, cu_basis_funs, cu_basis_funs_1st_der, cu_eval_spline_1d_scalar) and Props/C07Gen3.lean proves gen_cu_*_eq and gen_cu_eval_eq_general_path (generated fast path = general-path model on the uniform knots, inside the domain); target evalvec regenerates the 1-D vector entry points and Props/C07Gen4.lean proves gen_nu_eval_vector_eq/_total and gen_cu_eval_vector_eq/_model (y[k] = the scalar evaluation at x[k], nothing beyond); target eval2d regenerates the 2-D scalar evaluators and Props/C07Gen5.lean proves gen_eval_spline_2d_eq/_model/_total and gen_cu_eval_spline_2d_eq / gen_cu_eval_2d_eq_general_path (tensor-product sum over the 2-D coefficient window, all four derivative combinations); targets cross2d / vec2d regenerate the table and point-list 2-D entry points and Props/C07Gen6.lean, C07Gen7.lean prove gen_nu_cross_*, gen_cu_cross_*, gen_nu_vec_*, gen_cu_vec_* (every entry = the scalar evaluation at its own point, nothing else written).',
     'C10': ' Tie by TRANSLATION for the kernel: translate_pure.py --only flux regenerates Generated/FluxGen.lean from flux_advection (2-D/3-D arrays, augmented assignment) and Props/C10Gen.lean proves gen_flux_advection_eq / _sum / gen_flux_step_formula (generated triple loop = model = closed form, other entries untouched); target lagvals regenerates get_lagrange_vals and Props/C10Gen2.lean proves gen_lagrange_vals_eq / gen_lagrange_vals_entry (vals[(i - s_j) mod nz, k, j] = E((q_k + thetaShift_j) mod 2pi), nothing else written).',
     'C11': ' Tie by TRANSLATION: translate_pure.py --only vpar regenerates Generated/VParGen.lean from general_v_parallel_advection_eval_step (three boundary modes, enumerate, two while loops with fuel, f_eq and the spline evaluation as uninterpreted functions) and Props/C11Gen.lean proves gen_vpar_eq (generated = model boundary rule, nothing else written), gen_vpar_fEq_null, gen_vpar_other_bound, gen_vpar_periodic_total / _terminates (fuel N+1 is exactly the model\'s).',
     'C16': ' Tie by TRANSLATION: translate_pure.py --only density regenerates Generated/DensityGen.lean from get_rho / get_perturbed_rho (poisson_tools.py; real instance of the TypeVar) and Props/C16Gen.lean proves gen_get_rho_eq / gen_get_perturbed_rho_eq (every entry inside the box = the model kernel, entries outside untouched, previous content irrelevant) and gen_density_is_quadrature.',
-    'C12': ' Tie by TRANSLATION for the explicit scheme: translate_pure.py --only polexpl regenerates Generated/PolExplGen.lean from general_poloidal_advection_step_expl (spline evaluations and f_eq as uninterpreted functions, float % as a - b*floor(a/b), pi a parameter) and Props/C12Gen.lean proves gen_pol_expl_eq (every node gets what the model\'s explicit step prescribes; contract: the cross-evaluation tables equal the scalar evaluator at the nodes) and gen_pol_expl_heun_inside; target polimpl regenerates general_poloidal_advection_step_impl and Props/C12Gen2.lean proves gen_impl_sweep_eq, gen_impl_while_eq and gen_pol_impl_eq (whenever the model\'s implicit step returns with fuel N the generated function returns the same field with N+1 loop tests; termination not claimed).',
+    'C12': ' Tie by TRANSLATION for the explicit scheme: translate_pure.py --only polexpl regenerates Generated/PolExplGen.lean from general_poloidal_advection_step_expl (spline evaluations and f_eq as uninterpreted functions, float % as a - b*floor(a/b), pi a parameter) and Props/C12Gen.lean proves gen_pol_expl_eq (every node gets what the model\'s explicit step prescribes; contract: the cross-evaluation tables equal the scalar evaluator at the nodes) and gen_pol_expl_heun_inside; target polimpl regenerates general_poloidal_advection_step_impl and Props/C12Gen2.lean proves gen_impl_sweep_eq, gen_impl_while_eq and gen_pol_impl_eq (whenever the model\'s implicit step returns with fuel N the generated function returns the same field with N+1 loop tests; termination not claimed); Props/C12Gen3.lean discharges the table contract of both ties with the generated eval_spline_2d_cross (gen_pol_expl_eq_nu/_cu, gen_pol_impl_eq_nu/_cu); Props/C12NonTerm.lean: pol_impl_need_not_terminate (known finding F28).',
     'C13': ' Props/C13Extra.lean: fd_converges_with_order (the analytic clause, via Taylor with Lagrange remainder), fd_error_explicit, fd_converges_uniformly, pargrad_converges_with_order.',
     'C18': ' Props/C18Extra.lean: constants_order_independent (full clause), constants_success_iff_resolvable, constants_run_is_solution. Props/C18Rp.lean: the parser with the setters of rMin / rMax and set_defaults (constants_rp_explicit, constants_rp_derived, constants_rp_order_independent, constants_print_parse_roundtrip_rp, old_parser_rp_depends_on_order).',
     'C06': ' Props/C06Traces.lean: handler_traces_projection (for EVERY handler, route map and sequence of transposes the predicted per-rank traces are the projections of one explicit event list), directTrace_members_agree, early_exit_consistent, handler_transposes_never_deadlock; Props/C06SwapperTraces.lean: the same for the LayoutSwapper (swapper_traces_projection, crossTrace_members_agree, swapper_transposes_never_deadlock) under CommOK (the constructor chose its communicators; proved for the driver swapper). early_exit_old_inconsistent / swapper_early_exit_inconsistent are the kernel-checked witnesses of the defects F15 / F16b found by this proof attempt and repaired in /repo. Props/C06Extra.lean: route_deterministic (any two iteration orders give the same routes/distances/connectedness for distinct names), route_canonical (graph distance, lexicographically least shortest path), route_nodup_needed.',
-    'C05': ' C05.timestep_decomposition_independent (Props/C15Extra.lean, over the loop body REGENERATED from fullSimulation.py): runs on two decompositions whose grid-level operators assemble to the same global operators agree, for a step and for a whole run. Props/C05Extra.lean: wiring_operators_independent derives that hypothesis from the wiring theorems, giving timestep_decomposition_independent_wiring / timestep_wiring_serial with only kernels and layout contracts as parameters.',
+    'C05': ' C05.timestep_decomposition_independent (Props/C15Extra.lean, over the loop body REGENERATED from fullSimulation.py): runs on two decompositions whose grid-level operators assemble to the same global operators agree, for a step and for a whole run. Props/C05Extra.lean: wiring_operators_independent derives that hypothesis from the wiring theorems, giving timestep_decomposition_independent_wiring / timestep_wiring_serial with only kernels and layout contracts as parameters. Tie by TRANSLATION for the initialisation functions: translate_pure.py --only initfuncs regenerates Generated/InitFuncsGen.lean from initialiser_funcs.py (exp, tanh, cos, sqrt, pi uninterpreted) and Props/C05Gen.lean proves the closed formulas (n0, Ti, Te, perturbation, f_eq, init_f) and gen_init_f_flux_eq / gen_init_f_pol_eq / gen_init_f_vpar_eq / gen_feq_vector_eq (every entry of the filled array is the scalar function at that entry\'s OWN coordinates, nothing else written).',
     'C08': ' Props/C08Extra.lean: marsden_identity, polynomial_in_spline_space, greville_reproduces_identity, poly_reproduction (full clause; injectivity of the collocation matrix is the one explicit hypothesis).',
     'C09': ' Props/C09Extra.lean: integrals_antiderivative (full clause for sorted knots with simple interior knots), periodic_tail_antiderivative, interior_integral_full, uniform_periodic_equal_weights_low_degree (degrees 1-6 unconditional; >=7 under unisolvence).',
 }
